@@ -25,6 +25,8 @@ Definition ble (x y : bound) : bool :=
   | PInf, _ => false
   end.
 
+Arguments ble !x !y /.
+
 (* bound::operator>= *)
 Definition bge (x y : bound) : bool := ble y x.
 (* operator< is !operator>= ; operator> is !operator<= *)
